@@ -42,6 +42,19 @@ REP2 = {"title": "Rooted", "type": "object", "properties": {"inner": {"type": "o
         "definitions": {"Sm": {"type": "string", "pattern": "^[a-z]+$"}}}
 
 
+class _Timeout:
+    """stand-in for a CompletedProcess when the real cargo-typify binary does not return (reported as a failing run)"""
+    def __init__(self, out, err):
+        self.returncode, self.stdout, self.stderr = 124, out or b"", (err or b"") + b"\n[verif] cargo-typify killed: timeout"
+
+
+def _run_cli(args, d):
+    try:
+        return subprocess.run(args, stdout=subprocess.PIPE, stderr=subprocess.PIPE, cwd=d, timeout=180)
+    except subprocess.TimeoutExpired as te:
+        return _Timeout(te.stdout, te.stderr)
+
+
 def schemas(tier):
     ex = json.load(open(os.path.join(REPO, "example.json")))
     out = {"example": ex, "xrt": XRT}
@@ -201,7 +214,7 @@ def run_cli(exe, c, feats, workdir):
     args = [exe, "typify", inp, "-o", "-"] + (["--builder"] if c["builder"] else ["--no-builder"])
     for fn in c["features"]:
         args += feats[fn][1]
-    p = subprocess.run(args, stdout=subprocess.PIPE, stderr=subprocess.PIPE, cwd=d)
+    p = _run_cli(args, d)
     files = sorted(os.listdir(d))
     shutil.rmtree(d, ignore_errors=True)
     return p.returncode, p.stdout.decode("utf-8", errors="replace"), p.stderr.decode("utf-8", errors="replace")[-400:], files
@@ -219,7 +232,7 @@ def path_rules(exe, workdir):
         os.makedirs(os.path.dirname(inp), exist_ok=True)
         json.dump(good, open(inp, "w"))
         before = set(_walk(d))
-        p = subprocess.run([exe, "typify", inp], stdout=subprocess.PIPE, stderr=subprocess.PIPE, cwd=d)
+        p = _run_cli([exe, "typify", inp], d)
         n += 1
         base, ext = os.path.splitext(name)
         want = base + ".rs"
@@ -227,14 +240,14 @@ def path_rules(exe, workdir):
         if p.returncode != 0 or created != {want} or p.stdout:
             probs.append("default path for %s: rc=%d created=%s stdout=%d bytes, expected file %s" % (name, p.returncode, sorted(created), len(p.stdout), want))
         # -o file
-        p = subprocess.run([exe, "typify", inp, "-o", os.path.join(d, "out_here.rs")], stdout=subprocess.PIPE, stderr=subprocess.PIPE, cwd=d)
+        p = _run_cli([exe, "typify", inp, "-o", os.path.join(d, "out_here.rs")], d)
         n += 1
         created2 = set(_walk(d)) - before - created
         if p.returncode != 0 or created2 != {"out_here.rs"} or p.stdout:
             probs.append("-o file for %s: rc=%d created=%s" % (name, p.returncode, sorted(created2)))
         # -o -
         before3 = set(_walk(d))
-        p = subprocess.run([exe, "typify", inp, "-o", "-"], stdout=subprocess.PIPE, stderr=subprocess.PIPE, cwd=d)
+        p = _run_cli([exe, "typify", inp, "-o", "-"], d)
         n += 1
         if p.returncode != 0 or not p.stdout or set(_walk(d)) != before3:
             probs.append("-o - for %s: rc=%d stdout=%d bytes new files=%s" % (name, p.returncode, len(p.stdout), sorted(set(_walk(d)) - before3)))
@@ -247,7 +260,7 @@ def path_rules(exe, workdir):
         outp = os.path.join(d, "in.rs" if how == "default" else "keep.rs")
         open(outp, "w").write("// precious\n")
         args = [exe, "typify", inp] + ([] if how == "default" else ["-o", outp])
-        p = subprocess.run(args, stdout=subprocess.PIPE, stderr=subprocess.PIPE, cwd=d)
+        p = _run_cli(args, d)
         n += 1
         if p.returncode == 0 or p.stdout or open(outp).read() != "// precious\n" or len(_walk(d)) != 2:
             probs.append("failing schema (%s): rc=%d stdout=%d bytes output file %s files=%s" % (
@@ -301,7 +314,7 @@ def run_specs(exe, tier, workdir):
     strings = spec_strings(tier)
 
     def one(s):
-        p = subprocess.run([exe, "typify", inp, "-o", "-", "--crate=" + s], stdout=subprocess.PIPE, stderr=subprocess.PIPE, cwd=d)
+        p = _run_cli([exe, "typify", inp, "-o", "-", "--crate=" + s], d)
         return s, p.returncode
     with ThreadPoolExecutor(max_workers=NPROC) as ex:
         res = list(ex.map(one, strings))
